@@ -229,6 +229,7 @@ func genSession(rt *rapid.T, maxSteps int) sessCase {
 	if c.Seg == "chunks" {
 		c.Chunks = rapid.SliceOfN(rapid.OneOf(rapid.IntRange(1, 20), rapid.IntRange(1, 5000), rapid.Just(70000)), 1, 6).Draw(rt, "chunks")
 	}
+	c.Abort = rapid.IntRange(0, 4).Draw(rt, "abort") == 0
 	return c
 }
 
@@ -242,7 +243,11 @@ func sessLabel(c sessCase) string {
 			dup = "+dup"
 		}
 	}
-	return fmt.Sprintf("session/ids=%d%s/seg=%s", ids, dup, c.Seg)
+	end := "shutdown"
+	if c.Abort {
+		end = "abort"
+	}
+	return fmt.Sprintf("session/ids=%d%s/seg=%s/%s", ids, dup, c.Seg, end)
 }
 
 func opLabels(r *vlib.Run, c sessCase) {
@@ -279,7 +284,7 @@ func TestSessionModel(t *testing.T) {
 	}
 	r.Rule(sessRule)
 	maxSteps := r.Pick(60, 120)
-	r.Rapid(t, "TestSessionModel", r.Pick(350, 4000), func(rt *rapid.T) {
+	r.Rapid(t, "TestSessionModel", r.Pick(3000, 30000), func(rt *rapid.T) {
 		if getInfra() != nil {
 			return
 		}
@@ -362,7 +367,7 @@ func TestSessionBursts(t *testing.T) {
 		return
 	}
 	r.Rule("bursts: per session 10..40 rounds; each round opens 1 or 2 connections, waits until the services are reading, then sends 1..6 data messages per connection and the end-of-stream (or the disconnect) in one transport record, or the data alone followed by a wait until the services have read it; non-trivial = rounds with 2 connections")
-	r.Rapid(t, "TestSessionBursts", r.Pick(40, 400), func(rt *rapid.T) {
+	r.Rapid(t, "TestSessionBursts", r.Pick(300, 3000), func(rt *rapid.T) {
 		if getInfra() != nil {
 			return
 		}
